@@ -56,6 +56,10 @@ type Case struct {
 	RKind int `json:"r_kind,omitempty"`
 	Corr    *Corr     `json:"corr,omitempty"`
 	Pad     int       `json:"pad,omitempty"` // that many more (simple, distinct) delegations in the set: sizes around the CBOR list-head boundaries
+	// Twice: every token is sealed a second time by its issuer and that sealing is put in as well. Under a randomised
+	// signature scheme (the NIST curves) the two sealings are different bytes under different CIDs: two entries that say
+	// the same thing. Both were added; both come back.
+	Twice bool `json:"twice,omitempty"`
 }
 
 func padTokens(n int) []tok.Tok {
@@ -181,6 +185,14 @@ func run(c *h.Ctx, cs Case) {
 		}
 		v, _ := tok.ViewOf(tk)
 		sealed = append(sealed, sealedTok{d, data, id, v})
+		if cs.Twice {
+			if data2, id2, err := tk.ToSealed(priv); err == nil && !bytes.Equal(data2, data) {
+				if _, _, err := token.FromSealed(data2); err == nil {
+					sealed = append(sealed, sealedTok{d, data2, id2, v})
+					c.P.Class("sealed-twice:two-forms")
+				}
+			}
+		}
 	}
 	// insertion order
 	idx := make([]int, len(sealed))
@@ -531,6 +543,7 @@ func draw(t *rapid.T) Case {
 	if cs.RStream {
 		cs.RKind = rapid.IntRange(0, 5).Draw(t, "rkind")
 	}
+	cs.Twice = rapid.IntRange(0, 3).Draw(t, "twice") == 0
 	if rapid.IntRange(0, 2).Draw(t, "corrupt") == 0 {
 		cs.Corr = &Corr{Kind: rapid.SampledFrom(corrKinds).Draw(t, "ck"), Entry: rapid.IntRange(0, 5).Draw(t, "ce"), Off: rapid.IntRange(0, 5000).Draw(t, "co"), Bit: rapid.IntRange(0, 7).Draw(t, "cb")}
 	}
@@ -898,4 +911,24 @@ func TestEveryCountEveryEntry(t *testing.T) {
 		prop.One(t, Case{Pad: n, Order: []int{0}, Format: ctr.Formats[n%len(ctr.Formats)], RStream: n%2 == 0, RKind: n % 6})
 	}
 	P.SetExtra("every_count_every_entry_cases", cases)
+}
+
+
+// TestSealedTwice: one delegation and one invocation of every key algorithm, each sealed twice, both sealings in one
+// container, through every format and reader / writer variant.
+func TestSealedTwice(t *testing.T) {
+	n := 0
+	for _, a := range keys.AllAlgs {
+		set := []tok.Tok{
+			{Dlg: &tok.Dlg{Iss: tok.KeyRef{Alg: a, Idx: 0}, Aud: tok.KeyRef{Alg: keys.Ed25519, Idx: 1}, Sub: "iss", Cmd: "/twice", Nonce: []byte("twice-nonce-00")}},
+			{Inv: &tok.Inv{Iss: tok.KeyRef{Alg: a, Idx: 1}, Sub: tok.KeyRef{Alg: keys.Ed25519, Idx: 0}, Cmd: "/twice/x", Nonce: []byte("twice-nonce-01")}},
+		}
+		for _, f := range ctr.Formats {
+			for v := 0; v < 4; v++ {
+				prop.One(t, Case{Toks: set, Order: []int{v, 1}, Format: f, WStream: v&1 == 1, RStream: v&2 == 2, RKind: v, Twice: true})
+				n++
+			}
+		}
+	}
+	P.SetExtra("sealed_twice_cases", n)
 }
